@@ -14,7 +14,7 @@ func FuzzCompile(f *testing.F) {
 		}
 	}
 	f.Fuzz(func(t *testing.T, g byte, in []byte, mf bool) {
-		c := CompileCase{Grammar: []string{"expr", "path_eval", "leafref"}[int(g)%3], Input: in, MapFn: mf}
+		c := CompileCase{Grammar: []string{"expr", "path_eval", "leafref", "expr_custom", "path_eval_custom"}[int(g)%5], Input: in, MapFn: mf}
 		if out := checkCompile(c); out.Violation != "" {
 			fw.FuzzReport(compileProp, c, out)
 			t.Fatal(out.Violation)
